@@ -84,6 +84,28 @@ def dump(path):
     return out
 
 
+def dump_signature(d):
+    """Run-independent signature of a container dump (file hashes and
+    scratch paths differ between runs: HDF5 files carry time stamps)."""
+    groups = collections.defaultdict(list)
+    for name, obj in d.items():
+        parts = name.split("/")
+        if parts[0] != "analysis" or len(parts) < 2:
+            continue
+        g = groups[parts[1]]
+        if len(parts) == 2:
+            g.append(("attrs", sorted(
+                (k, str(v)) for k, v in obj["attrs"].items()
+                if k not in ("data hash", "nanite version",
+                             "h5py version")
+                # lmfit's JSON dump orders its symbol table by set
+                # iteration (hash-seed dependent text, same values)
+                and not k.startswith("fit params"))))
+        else:
+            g.append((parts[2], obj.get("data")))
+    return sorted(core.digest(sorted(g, key=str)) for g in groups.values())
+
+
 def norm_setting(k, v):
     """Type-normalised value of a fit property for K1 (numpy vs Python
     scalars, tuple vs list)."""
@@ -365,7 +387,7 @@ class ContainerEngine:
                 len(w.ref[k]), sorted(e["state"] for e in w.ref[k].values())
             ]))
             log.append({"i": i, "op": "save",
-                        "dump": core.digest(dump(w.containers[k]))})
+                        "dump": dump_signature(dump(w.containers[k]))})
         probes["fault positions enumerated"] = self.enum_positions
         return {"violation": violation, "log_digest": core.digest(log),
                 "log": log, "probes": dict(probes), "faults": dict(faults),
